@@ -1,6 +1,6 @@
 (* Properties/C02.v — derived Equal is exactly structural equality.
    Statements only; proofs are in Go/EqualProofs.v. *)
-From Verif Require Import Go.Ty Go.Val Go.Equal Go.EqualProofs.
+From Verif Require Import Go.Ty Go.Val Go.Equal Go.EqualProofs Go.CompareSpec Go.Canon.
 
 (* For every type and all well-typed (acyclic, NaN-free) values the generated comparison — in
    both generator modes: body of a deriveEqual function (Top) and component expression (Fld) —
@@ -9,7 +9,7 @@ From Verif Require Import Go.Ty Go.Val Go.Equal Go.EqualProofs.
 Theorem C02_equal_is_structural : forall x e md t y,
   has_type e t x = true -> has_type e t y = true ->
   (exists b, spec_eq e t x y = Some b) /\
-  (eqm e md t x y = Unsup \/ eqm e md t x y = lift (spec_eq e t x y)).
+  (Equal.eqm e md t x y = Unsup \/ Equal.eqm e md t x y = lift (spec_eq e t x y)).
 Proof. exact eqm_spec. Qed.
 Print Assumptions C02_equal_is_structural.
 
@@ -21,7 +21,7 @@ Print Assumptions C02_equal_never_panics.
 
 Theorem C02_equal_top_eq_field : forall e t x y,
   has_type e t x = true -> has_type e t y = true ->
-  eqm e Top t x y = Unsup \/ eqm e Fld t x y = Unsup \/ eqm e Top t x y = eqm e Fld t x y.
+  Equal.eqm e Top t x y = Unsup \/ Equal.eqm e Fld t x y = Unsup \/ Equal.eqm e Top t x y = Equal.eqm e Fld t x y.
 Proof. exact equal_top_eq_field. Qed.
 Print Assumptions C02_equal_top_eq_field.
 
@@ -35,6 +35,29 @@ Theorem C02_go_eqeq_is_structural : forall t, can_equal t = true -> forall e x y
   spec_eq e t x y = Some (go_eqeq x y).
 Proof. exact go_eqeq_spec. Qed.
 Print Assumptions C02_go_eqeq_is_structural.
+
+(* structural equality (hence derived Equal) is an equivalence relation on the values of a type *)
+Theorem C02_equal_refl : forall e t x, has_type e t x = true -> spec_eq e t x x = Some true.
+Proof. exact spec_eq_refl. Qed.
+Print Assumptions C02_equal_refl.
+
+Theorem C02_equal_sym : forall e t x y, has_type e t x = true -> has_type e t y = true ->
+  spec_eq e t x y = spec_eq e t y x.
+Proof. exact spec_eq_sym. Qed.
+Print Assumptions C02_equal_sym.
+
+Theorem C02_equal_trans : forall e t x y z,
+  has_type e t x = true -> has_type e t y = true -> has_type e t z = true ->
+  spec_eq e t x y = Some true -> spec_eq e t y z = Some true -> spec_eq e t x z = Some true.
+Proof. exact spec_eq_trans. Qed.
+Print Assumptions C02_equal_trans.
+
+(* it is equality of a canonical form that mentions no address, no spare capacity and lists
+   map entries in key order *)
+Theorem C02_equal_is_canonical_form : forall e t x y, has_type e t x = true -> has_type e t y = true ->
+  (enc e t x = enc e t y <-> spec_eq e t x y = Some true).
+Proof. exact enc_eq_iff. Qed.
+Print Assumptions C02_equal_is_canonical_form.
 
 (* the pinned tree before fix 703d315: bytes.Equal alone ignored nil-ness of []byte fields *)
 Theorem C02_equal_bytes_old_refuted :
